@@ -85,9 +85,9 @@ Inductive case :=
   (* a history run against a fresh database with the handler configured as [h] *)
 | CHist (id : N) (h : hcfg) (l : list obs).
 
-(* The loop the tree under test has.  Until the repair of D13 is in /repo this is the legacy
-   loop. *)
-Definition tree_loop : loop_fn := legacy_handle_rows.
+(* The loop the tree under test has: the repaired one (the defective loop of the pinned tree
+   is kept as [legacy_handle_rows] for the refutation only). *)
+Definition tree_loop : loop_fn := handle_rows.
 
 Definition check_case (c : case) : list N :=
   match c with
